@@ -68,6 +68,21 @@ def run(c):
         if dead:
             raise vlib.InfraError("actions never taken: %s" % dead)
 
+    # 2a. the record layout measured on the real codec (field ranges, encoded length) against the constants
+    m = k["measured"]
+    layout_ev = dict(ev="Layout", fields=m["fields"], len=m["encoded_len"])
+    cfg = rm.trace_cfg(k, ["OneRecordPerSlot"])
+    rej0, _ = rm.validate(c, cfg, [("layout-facts", [layout_ev])], par=1)
+    if rej0:
+        why = diagnose(layout_ev, k)
+        c.report("layout-rejected:Layout:%s" % why,
+                 "the record layout measured on the real codec is not the one the constants describe (%s): %s" % (why, json.dumps(layout_ev)),
+                 dict(rejected_event=layout_ev, constants=consts))
+        c.cov.update(dict(evaluations=1, distinct_nontrivial=1, exhaustive=False, layout_constants=consts,
+                          rule="measured record layout against the constants extracted from the source (the slot-write cases were not run: records do not fit their slots)"))
+        c.sample(dict(layout=layout_ev))
+        return
+
     # 2. spec -> code: every case on the real codec / the real registry write path
     cf = os.path.join(c.scratch, "cases.json")
     # codec cases first, then the writes slot by slot in TLC's order
@@ -75,8 +90,6 @@ def run(c):
     out = os.path.join(c.scratch, "layout.ndjson")
     c.run([binp, "layout", cf, out, c.datadir("layout")], env=env, timeout=c.pick(900, 3600))
     evs = [e for e in vlib.read_ndjson(out) if e["ev"] != "TraceStart"]
-    m = k["measured"]
-    layout_ev = dict(ev="Layout", fields=m["fields"], len=m["encoded_len"])
     # one trace per chunk of events, each starting from the prepared block (Prepared + ObserveBlock hand-over)
     prepared = evs[0]
     if prepared["ev"] != "Prepared":
@@ -88,7 +101,9 @@ def run(c):
     traces.append(("layout", cur))
 
     # 3. code -> spec
-    cfg = rm.trace_cfg(k, ["OneRecordPerSlot"])
+    if prepared.get("measured", 0) < k["SlotsPerBlock"]:
+        raise vlib.InfraError("a block of this tree overflows after %s records, handlesPerBlock says %s: the slot-write cases cannot be placed"
+                              % (prepared.get("measured"), k["SlotsPerBlock"]))
     rej, _ = rm.validate(c, cfg, traces, chunk_lines=10 ** 9, timeout=c.pick(900, 3000), par=1)
     for x in rej[:5]:
         ev = x["event"] or {}
